@@ -17,14 +17,15 @@ def configs(tier):
     D = '-fno-access-control'
     def man(d, nc, batch, ops, mp):
         cs.append(Config('manager-d%dn%db%d-%s' % (d, nc, batch, ops), 'C18', [0, d, nc, batch, ops], max_paths=mp, defines=D, strategy='tree', solver_timeout_ms=5000, timeout=60))
-    def con(sp, par, jobs, batch, mp=12, lat=0):
-        cs.append(Config('%s-%s-j%db%d%s' % (short(sp), 'par' if par else 'seq', jobs, batch, '-lat%d' % lat if lat else ''), 'C18', [1, sp, par, jobs, batch, lat], max_paths=mp, defines=D, strategy='tree', solver_timeout_ms=5000, timeout=60, validate=not par))
+    def con(sp, par, jobs, batch, mp=12, lat=0, pre=0):
+        cs.append(Config('%s-%s-j%db%d%s%s' % (short(sp), 'par' if par else 'seq', jobs, batch, '-lat%d' % lat if lat else '', '-pre%d' % pre if pre else ''), 'C18', [1, sp, par, jobs, batch, lat] + ([pre] if pre else []), max_paths=mp, defines=D, strategy='tree', solver_timeout_ms=5000, timeout=60, validate=not par))
     def lnv(sp, threads, lat=0):
         cs.append(Config('%s-lnv-t%d%s' % (short(sp), threads, '-lat%d' % lat if lat else ''), 'C18', [2, sp, threads, lat], max_paths=1, defines=D, timeout=60, validate=(threads == 0)))
     if tier == 'quick':
         man(1, 3, 2, 'nncn', 60); man(2, 3, 1, 'ncrn', 40); man(1, 2, 2, 'nrnc', 40); man(1, 3, 1, 'nRnc', 60); man(2, 2, 2, 'nnRc', 40)
         con(spec('sequence', 'rleja', 2, 1, 1), 1, 4, 1); con(spec('localp', 'localp', 2, 1, 1, order=1), 1, 2, 2); con(spec('global', 'clenshaw-curtis', 2, 1, 1), 0, 1, 2); con(spec('localp', 'localp', 2, 2, 1, order=1), 0, 1, 1)
         con(spec('localp', 'localp', 2, 1, 1, order=1), 1, 3, 3, 16, lat=1); con(spec('sequence', 'rleja', 2, 1, 1), 1, 4, 2, 16, lat=1); con(spec('fourier', 'fourier', 2, 1, 1), 1, 3, 3, 12, lat=2)   # budgets below jobs x batch with skewed latencies
+        con(spec('sequence', 'rleja', 2, 1, 44), 0, 1, 1, 4, pre=12); con(spec('sequence', 'rleja', 2, 1, 44), 1, 2, 1, 4, pre=12)   # >= 1000 loaded points: finished samples are parked in the side storage until a refresh or 20% growth
         lnv(spec('localp', 'localp', 2, 1, 2, order=1), 3); lnv(spec('sequence', 'rleja', 2, 1, 3), 4, 2); lnv(spec('global', 'clenshaw-curtis', 2, 2, 2), 2); lnv(spec('sequence', 'leja', 2, 1, 2), 0)
     else:
         for ops in ('nncn', 'ncrn', 'nrnc', 'nnnc', 'ncnc', 'rnnc', 'nccr', 'nRnc', 'nnRc', 'ncRn', 'nRcR', 'nRRn'):
